@@ -9,6 +9,8 @@ wt = f"/tmp/wt/{prop}"; out = f"/tmp/wt/out-{prop}"
 diff = f"{out}/{name}.diff"
 num = re.sub(r"\D", "", name)
 demo = sys.argv[3] if len(sys.argv) > 3 and not sys.argv[3].startswith("--") else (f"{out}/demo_{num}.rs" if not name.startswith("extra") else f"{out}/extra_demo_{num}.rs")
+feat = next((a.split("=",1)[1] for a in sys.argv if a.startswith("--features=")), "")
+featflag = f"--features {feat} " if feat else ""
 env = dict(os.environ, CARGO_NET_OFFLINE="true", RUST_BACKTRACE="0")
 def sh(cmd, **kw): return subprocess.run(cmd, shell=True, cwd=wt, env=env, capture_output=True, text=True, **kw)
 sh("git checkout -q -- . && rm -f tests/demo_*.rs tests/extra_demo_*.rs")
@@ -18,10 +20,10 @@ suite = sh("cargo test --workspace --no-fail-fast --offline 2>&1")
 res = re.findall(r"test result: (\w+)\. (\d+) passed; (\d+) failed", suite.stdout)
 suite_ok = bool(res) and all(x[0] == "ok" for x in res) and any(int(x[1]) == 39 for x in res)
 shutil.copy(demo, f"{wt}/tests/demo_x.rs")
-with_m = sh("cargo test --offline --test demo_x 2>&1")
+with_m = sh(f"cargo test --offline {featflag}--test demo_x 2>&1")
 demo_fails_with = with_m.returncode != 0 and "error: could not compile" not in with_m.stdout
 sh("git checkout -q -- .")
-without = sh("cargo test --offline --test demo_x 2>&1")
+without = sh(f"cargo test --offline {featflag}--test demo_x 2>&1")
 demo_passes_without = without.returncode == 0
 compile_fail_demo = "--compile-fail-demo" in sys.argv
 if compile_fail_demo:
@@ -37,7 +39,7 @@ sid = f"{prop}-{name.replace('extra_', 'x')}"
 d = f"/verif/seeded/{sid}"; os.makedirs(d, exist_ok=True)
 shutil.copy(diff, f"{d}/patch.diff"); shutil.copy(demo, f"{d}/demo.rs")
 notes = open(f"{out}/notes.md").read() if os.path.exists(f"{out}/notes.md") else ""
-meta = {"id": sid, "breaks_property": prop.rstrip("bc"), "origin": "independent sub-agent given only the property text and a scratch worktree",
+meta = {"id": sid, "breaks_property": prop.rstrip("bcd"), "origin": "independent sub-agent given only the property text and a scratch worktree",
         "confirmed": {"suite_with_change": "all test binaries ok, 39/39 in tests/tests.rs", "demo_with_change": "fails", "demo_without_change": "rejected by the compiler (the demonstration is a program that must not compile)" if compile_fail_demo else "passes",
                       "commands": ["git apply patch.diff", "cargo test --workspace --no-fail-fast --offline", "cargo test --offline --test demo_x (with and without the change)"]},
         "needs_to_manifest": "", "detected_by": {}}
